@@ -31,24 +31,49 @@ LEVEL_TEXT = ("Lean theorems over the index-space model of rasterize. Box model:
               "the same cell / axes / values theorems hold, under the box rule it coincides with the box model, under the "
               "point rule a Point marks exactly its bin, under the centre rule a polygon's cell holds its value iff the "
               "centre is inside the polygon mapped to bin indices, under the superset contract all_touched only adds "
-              "cells. Ties: signature defaults and MAX_FREQUENCY re-extracted as obligations, the clamped lookup of "
-              "get_coord_index proved equal to the model for all inputs by symbolic trace, exact differential runs of "
-              "both models (templates 1-8 x 1-8, both orders, extra dimensions, regular and irregular axes, all "
-              "geometry types, integer and fractional values, fills, dtypes, defaults, all_touched both ways) with "
-              "rasterio's answers for the model's images as the rasteriser; box and point rules monitored exhaustively "
-              "on the library every run, centre rule and all_touched superset on every generated shape.")
+              "cells. Regular (range) axes: every lattice point start + k*step and every bin centre lies in bin k, and "
+              "inside the axis the bin is floor((v - start) / step) over the rationals. The call: passing the first k "
+              "optional arguments positionally in the documented order binds like the all-keyword call (Python's binding "
+              "modelled, parameter order tied to the signature). Histories: in a session of calls and of rasters edited "
+              "by the caller every call returns the answer to its own request and leaves the rasters already held as "
+              "they are. Ties: signature defaults, parameter order and MAX_FREQUENCY re-extracted as obligations, the "
+              "clamped lookup of get_coord_index proved equal to the model for all inputs by symbolic trace, exact "
+              "differential runs of both models (templates 1-8 x 1-8 and up to 1025 bins, both orders, extra dimensions, "
+              "regular, irregular, integer-index and range-built axes, all geometry types and ways of building them, "
+              "integer and fractional values, fills, dtypes, defaults, positional and keyword calls, all_touched both "
+              "ways, every pair of option classes) with rasterio's answers for the model's images as the rasteriser; "
+              "every lattice point of non-dyadic range axes as a box corner; sessions of calls on shared, re-used and "
+              "changed objects judged step by step; box and point rules monitored exhaustively on the library every run, "
+              "centre rule and all_touched superset on every generated shape.")
 LEVEL_NOTE = ("Unmodelled: rasterio / GDAL scan conversion (a parameter of the general model; its answers for the model's "
               "index-space images are observed on the library in every differential case). For integer-cornered boxes and "
               "points its rule is a run-time-monitored contract evaluated exhaustively on a small raster; for general "
               "polygons the centre rule (cells whose centre is off the boundary) and for all non-line shapes the "
               "all_touched superset are monitored on every generated shape; line burning is not characterised (known "
               "finding C20-K1). shapely.transform / geometry_to_shapely and xarray are tied by correspondence only; the "
-              "straight-line part of get_coord_index by symbolic trace with pandas' slice bound as a symbol.")
+              "straight-line part of get_coord_index by symbolic trace with pandas' slice bound as a symbol. Binary64 "
+              "rounding is outside the rational model: an implementation that locates bins by arithmetic is right over "
+              "the rationals (C20_lattice_floor) and can only be told apart on the real code, which the sweep of every "
+              "lattice point of non-dyadic axes and the ulp / 1e-12..1e-6 offsets do. State carried between calls is "
+              "outside the (pure) model: C20_history_independent states what a session must return, the history runs "
+              "(generator-bounded) observe it on the real code.")
 TECHNIQUE = ("Lean 4 proof over index-space model with the rasteriser as a parameter; table and symbolic-trace "
-             "obligations; exact differential correspondence; library contracts and polygon monitors")
-RULE = ("templates of 1-8 x 1-8 bins in both dimension orders (optionally with a third dimension), dyadic, decimal and "
-        "irregular spacings, lists of 0-4 geometries (box-like for the box model, all nine types for the general model) "
-        "with ends on, between and beyond coordinates; non-trivial = the implementation returned a raster "
+             "obligations; exact differential correspondence over construction paths, option pairs, lattice points and "
+             "call histories; library contracts and polygon monitors")
+RULE = ("templates of 1-8 x 1-8 bins in both dimension orders (optionally with a third dimension; built directly, "
+        "transposed, cut out of a larger template, with coordinates registered in the other order, with extra "
+        "coordinates, with integer contents), dyadic, decimal, irregular and integer-index spacings and axes built by "
+        "create_time_range / create_frequency_range (non-dyadic step stored in the 'step' attribute), lists of 0-4 "
+        "geometries (box-like for the box model, all nine types for the general model; built by geometry_validate, "
+        "constructor, tuples, ints, numpy scalars, JSON, model_copy, re-validation) with ends on, between, below and "
+        "beyond coordinates; optional arguments by keyword, all by keyword in reverse order, or the first 1-6 "
+        "positionally; every pair of option classes at least once (covering array); every lattice point and bin centre "
+        "of seven non-dyadic range axes as a box corner (stored coordinate, decimal literal, k/(1/step), one ulp either "
+        "side); offsets of one ulp and 1e-12..1e-6 relative around every coordinate at magnitudes 0..1e6; more than 16 / "
+        "256 / 1024 geometries, vertices and bins; histories of 3-5 calls in one process (x, a neighbour differing in "
+        "exactly one part, x again) on fresh, shared, re-assigned, in-place edited and model_copy'd templates / "
+        "geometries / lists, with answer-determining arguments snapshotted around every call, results edited by the "
+        "caller and every result re-read after the later calls; non-trivial = the implementation returned a raster "
         "with at least one burnt cell; distinct = distinct (operation, input)")
 TRUSTED = ["rasterio.features.rasterize (box rule monitored as a contract on every run), shapely.transform, "
            "xarray DataArray construction"]
@@ -62,7 +87,13 @@ ASSUMPTIONS = ["rasterio burns an integer-cornered box into exactly the cells wh
                "of the general model, which folds rasterio's single-shape answers)"]
 NOT_COMPARED = ["error messages (only the error class)", "attributes and name of the result",
                 "which cells GDAL burns for a given index-space shape (observed on rasterio, not modelled; contracts only)",
-                "cells whose centre lies exactly on the boundary of the index-space polygon (centre-rule contract)"]
+                "cells whose centre lies exactly on the boundary of the index-space polygon (centre-rule contract)",
+                "the template's contents and attributes after a call (only what determines a later answer is "
+                "snapshotted around a call: geometry coordinates, value lists, the template's dimensions and its time / "
+                "frequency coordinates)",
+                "xdim / ydim other than the documented defaults (given explicitly as 'time' / 'frequency', as str or as "
+                "arrays.Dimensions members)",
+                "float32 coordinate axes (pandas casts the query to float32: known finding C16-2)"]
 
 LINE_TYPES = ("LineString", "MultiLineString")
 DTYPES = ["float32", "float64", "int32", "int16", "uint8"]
